@@ -134,6 +134,12 @@ def cov(
 
     if w is None:
         fact = X.shape[1] - ddof
+        if np.isnan(fact):
+            from dask_array._core_utils import unknown_chunk_message
+
+            # normalising by an unknown number of observations would turn
+            # every entry into NaN
+            raise ValueError(f"Cannot compute the covariance of an array with unknown chunk sizes.{unknown_chunk_message}")
     elif ddof == 0:
         fact = w_sum
     elif aweights is None:
